@@ -234,6 +234,19 @@ func checkACS(r *Report, sc *Scope) {
 	seenStore := map[string]bool{}
 	for _, root := range maximalRoots(p, hasStore) {
 		rg := NewRegion(p, root, 2)
+		// the registry's answer kept in a local besides being stored into the request: the local names the same object
+		// as the request's field (spMetadata, err := GetServiceProvider(..); req.ServiceProviderMetadata = spMetadata)
+		mdAlias := map[string]string{}
+		rg.Each(func(x RI) {
+			st, fa, field := isACSField(x.I)
+			if st == nil || field != "ServiceProviderMetadata" {
+				return
+			}
+			fc := rg.Ctx(NewAnalysis(p), x.C)
+			if ex, ok := Resolve(st.Val).(*ssa.Extract); ok && ex.Index == 0 {
+				mdAlias[fc.AP(ex)] = fc.AP(fa.X) + ".ServiceProviderMetadata"
+			}
+		})
 		rg.Each(func(x RI) {
 			in := x.I
 			st, fa, field := isACSField(in)
@@ -245,6 +258,18 @@ func checkACS(r *Report, sc *Scope) {
 			fc := rg.Ctx(a, x.C)
 			fc.ensureConds()
 			if fc.AbsCond(b) == B.False {
+				// a selection rule that can never apply: every request that would satisfy it has already been answered by an
+				// earlier pass (the scan for a default endpoint placed after the "any endpoint" fallback)
+				if field == "ACSEndpoint" {
+					dk := "dead|" + p.InstrPos(in)
+					if x.C != nil && x.C.site != nil {
+						dk = "dead|" + p.InstrPos(x.C.site.(ssa.Instruction))
+					}
+					if !seenStore[dk] {
+						seenStore[dk] = true
+						r.Bad("C05.acs-guards", fmt.Sprintf("%s: endpoint choice can apply [%s]", p.FnName(fn), strings.TrimPrefix(dk, "dead|")), p.InstrPos(in), "this endpoint choice is unreachable: the passes before it already return for every request that satisfies its condition, so the selection rule it implements (e.g. the registered default endpoint) never takes effect")
+					}
+				}
 				return
 			}
 			r.Fn(p.FnName(fn))
@@ -264,6 +289,14 @@ func checkACS(r *Report, sc *Scope) {
 					if al, ok := fa.X.(*ssa.Alloc); ok {
 						if iv := literalFieldValue(al, []int{fa.Field}, 0); iv != nil {
 							ap = ofc.AP(iv)
+						}
+					}
+				}
+				apRaw := ap
+				if field != "ServiceProviderMetadata" {
+					for from, to := range mdAlias {
+						if strings.HasPrefix(ap, from+".") {
+							ap = to + strings.TrimPrefix(ap, from)
 						}
 					}
 				}
@@ -304,7 +337,7 @@ func checkACS(r *Report, sc *Scope) {
 					}
 					r.OK("C05.acs-provenance", cons, p.InstrPos(in), "copy of an element of the registered metadata's AssertionConsumerServices")
 					// guards
-					ep := ap
+					ep := apRaw // (the conditions name the element as the code reads it)
 					req := reqRoot + ".Request"
 					lit := func(name string, pos bool) *bddNode {
 						if !B.HasVar(name) {
@@ -339,6 +372,32 @@ func checkACS(r *Report, sc *Scope) {
 							}
 							if strings.Contains(other, "HTTP-Redirect") {
 								browser = B.Or(browser, B.Var(nm))
+							}
+							// "equals some element of a constant list" (a search loop over a package-level table of bindings)
+							if strings.HasPrefix(other, "g:") && strings.HasSuffix(other, "[*]") {
+								for _, ov := range ai.Vals {
+									g := globalOfElem(ov)
+									if g == nil {
+										continue
+									}
+									elems, okE := p.globalSliceElems(g)
+									allBrowser, allPost := okE, okE
+									for _, e := range elems {
+										es := a.Ctx(fn).AP(e)
+										if !strings.Contains(es, "HTTP-POST") && !strings.Contains(es, "HTTPPostBinding") {
+											allPost = false
+											if !strings.Contains(es, "HTTP-Redirect") && !strings.Contains(es, "HTTPRedirectBinding") {
+												allBrowser = false
+											}
+										}
+									}
+									if allBrowser {
+										browser = B.Or(browser, B.Var(nm))
+									}
+									if allPost {
+										post = B.Or(post, B.Var(nm))
+									}
+								}
 							}
 						}
 					}
@@ -394,6 +453,38 @@ func checkACS(r *Report, sc *Scope) {
 			if n.at.C != d.at.C {
 				// the two choices are made by two calls of a walker: the call that looks for a default comes first
 				okOrd := d.rg.Before(d.at, n.at)
+				if !okOrd {
+					// the two choices are made through two calls of a helper that records the choice (a setter): judged
+					// like two stores, at the call sites in the function both calls belong to
+					px, py := d.at.pos(), n.at.pos()
+					for k := 0; k < len(px) && k < len(py); k++ {
+						if px[k] == py[k] {
+							continue
+						}
+						if px[k].Parent() != py[k].Parent() {
+							break
+						}
+						db, nb := px[k].Block(), py[k].Block()
+						shared := false
+						for _, h := range loopHeadersOf(db) {
+							for _, h2 := range loopHeadersOf(nb) {
+								if h == h2 {
+									shared = true
+								}
+							}
+						}
+						if hs := loopHeadersOf(db); len(hs) > 0 && !shared {
+							outer := hs[0]
+							for _, h := range hs {
+								if h.Dominates(outer) {
+									outer = h
+								}
+							}
+							okOrd = outer.Dominates(nb) && !underLoop(outer, nb)
+						}
+						break
+					}
+				}
 				r.Check(okOrd, "C05.acs-guards", fmt.Sprintf("%s: the default endpoint takes precedence over the first browser-binding endpoint", p.FnName(d.fn)), n.pos, "the pass that looks for a default endpoint runs before the fallback pass", fmt.Sprintf("the fallback endpoint choice at %s is not made after the default-endpoint pass at %s", n.pos, d.pos))
 				continue
 			}
@@ -503,6 +594,34 @@ func initStore(al *ssa.Alloc) ssa.Value {
 	}
 	if n == 1 {
 		return v
+	}
+	return nil
+}
+
+// globalOfElem: v is an element of a package-level slice or array (the element a range loop over it yields, or an
+// indexed read): that variable.
+func globalOfElem(v ssa.Value) *ssa.Global {
+	for i := 0; i < 6 && v != nil; i++ {
+		switch x := v.(type) {
+		case *ssa.Global:
+			return x
+		case *ssa.UnOp:
+			v = x.X
+		case *ssa.IndexAddr:
+			v = x.X
+		case *ssa.Index:
+			v = x.X
+		case *ssa.Extract:
+			if nx, ok := x.Tuple.(*ssa.Next); ok {
+				if rg, ok := nx.Iter.(*ssa.Range); ok {
+					v = rg.X
+					continue
+				}
+			}
+			return nil
+		default:
+			return nil
+		}
 	}
 	return nil
 }
